@@ -449,6 +449,11 @@ impl UnionMerger {
                     kind: RuntypeKind::AnyOf(vs),
                     ..
                 } => self.consume(vs.into_iter().collect()),
+                // never is the identity of union
+                Runtype {
+                    kind: RuntypeKind::Never,
+                    ..
+                } => {}
                 other => {
                     self.0.insert(other);
                 }
@@ -524,7 +529,17 @@ impl Runtype {
         match vs.len() {
             0 => Runtype::never(),
             1 => vs.into_iter().next().expect("we just checked len"),
-            _ => UnionMerger::schema(vs),
+            _ => {
+                let merged = UnionMerger::schema(vs);
+                match merged.kind {
+                    RuntypeKind::AnyOf(ref set) if set.is_empty() => Runtype::never(),
+                    // `string | string` flattens to a single member: it is that member, not a union of one
+                    RuntypeKind::AnyOf(ref set) if set.len() == 1 => {
+                        set.iter().next().expect("we just checked len").clone()
+                    }
+                    _ => merged,
+                }
+            }
         }
     }
     pub fn all_of(all_of_items: Vec<Runtype>) -> Self {
@@ -573,7 +588,12 @@ impl Runtype {
                 if rest_is_empty && all_objects && all_of_items.len() > 1 {
                     Runtype::object(obj_kvs)
                 } else {
-                    Self::new(RuntypeKind::AllOf(BTreeSet::from_iter(all_of_items)))
+                    let set = BTreeSet::from_iter(all_of_items);
+                    if set.len() == 1 {
+                        // `A & A` is A, not an intersection of one
+                        return set.into_iter().next().expect("we just checked len");
+                    }
+                    Self::new(RuntypeKind::AllOf(set))
                 }
             }
         }
